@@ -7,6 +7,7 @@ import Dassh.Model.AxialMesh
 import Dassh.Model.Mesh
 import Dassh.Model.Peaks
 import Dassh.Model.Pressure
+import Dassh.Model.Power
 
 open Dassh.Model
 
@@ -79,6 +80,17 @@ def handle (line : String) : String :=
       let r := Pressure.sweep (strict == "1") grids cf cg kl (floatPairs vs)
       "ok " ++ showFloats [r.1, r.2.1, r.2.2]
     | _, _, _ => "bad-op"
+  | "power" :: fixed :: rest =>
+    -- power <0|1> avg cellLen | dz p inBundle(0/1 as float) ...
+    let (hd, st) := splitBar rest
+    match floatList hd, floatList st with
+    | some [avg, cl], some vs =>
+      let rec triples : List Float → List (Power.Step Float)
+        | a :: b :: c :: t => ⟨a, b, c != 0.0⟩ :: triples t
+        | _ => []
+      let steps := triples vs
+      "ok " ++ showFloats [Power.renorm (fixed == "1") avg cl steps, Power.delivered (fixed == "1") avg cl steps]
+    | _, _ => "bad-op"
   | _ => "bad-op"
 
 partial def loop (h : IO.FS.Stream) : IO Unit := do
